@@ -5,6 +5,7 @@ import Nuts.Model.Tx
 import NutsProofs.Props.C04
 import NutsProofs.Facts
 import NutsProofs.Lemmas.ReopenAll
+import NutsProofs.Pins.TxApi
 namespace NutsProofs.C12
 open Nuts Nuts.Model Nuts.Model.DB NutsProofs NutsProofs.C04
 
